@@ -242,6 +242,33 @@ CHECKS = {
         note='Used-before-assignment and empty-script warnings are parsed but not judged (the property does not constrain them); '
              'edits are skipped when the function name is defined twice (the warning does not identify the statement).',
         ref='DESIGN.md 5 C18'),
+    'C06': dict(
+        technique='TLA+ line-level spec (BareLines: char-level LogicalLines, block stack machine vs block grammar, elision / caret '
+                  'relation) + TLC model checking (MC_Lines: machine = grammar on all kind sequences, layout invariance) + TLC judgement '
+                  'of real parse outcomes and error records (Trace_Lines)',
+        text='TLC checks that the parser-shaped block stack machine accepts exactly the sequences of line kinds the block grammar '
+             'derives (<= 4, 5 thorough) and that logical-line construction accounts for every code line. All kind sequences up to length '
+             '3 (4) with and without a dangling continuation, sampled longer ones and nesting to depth 50 are rendered and parsed: '
+             'model iff derivable, else BareScriptParserError. Faults injected at known token gaps of the 8 statement kinds that carry '
+             'an expression, in lines of length 0..400 with unique tokens: TLC recomputes the logical lines of the text and requires '
+             'the error to name one (text and 1-based number offset by start_line_number), the column to lie between the end of the '
+             'last good token + 1 and the fault, and the caret of the (possibly elided) message to sit under that column; prepending '
+             'k lines or raising start_line_number must move only the line number, by k. Mutated programs and token soup: totality.',
+        note='For token soup the specification does not predict which error is raised, only that one is and that it names a '
+             'logical line of the text. Statement recognition (which regex a line matches) is taken from the generator\'s line kinds.',
+        ref='DESIGN.md 5 C06'),
+    'C10': dict(
+        technique='TLA+ char-level logical-line construction (BareLines.LogicalLines / LogicalOfChunks / Norm) + TLC model checking of '
+                  'layout invariance (MC_Lines) + TLC decides from the two texts that a rewrite is layout-only and then requires equal '
+                  'real models (Trace_Lines kind layout)',
+        text='Random structured programs and every shipped .bare script are rewritten by random combinations of LF->CRLF, chunking at '
+             'line boundaries (<= 6 cuts, passed as an iterable), blank / comment line insertion with probability 0.3 per line (also '
+             'inside continued lines, also comments ending in a backslash), indentation changes, trailing blanks and continuation '
+             'backslashes at blanks outside quotes and brackets. TLC computes the logical lines of both texts char by char; when they '
+             'agree up to blanks the two real parse_script results must be deep-equal, and repeated / interleaved parses must agree.',
+        note='A continuation is only inserted where a blank already exists (outside string literals and bracketed names); rewrites '
+             'TLC judges not layout-only are counted as SKIP (none on the pinned tree).',
+        ref='DESIGN.md 5 C10'),
 }
 
 NOT_YET = 'check not built yet in this round (work in progress; see DESIGN.md section 9 build order)'
